@@ -1,7 +1,7 @@
 CONSTANTS
-  Ext <- NoExtensions
+  Ext <- AllExtensions
   Conv = "bundled"
-  Defects = FALSE
+  Defects = TRUE
   Mode = "sim"
   Kernel = "full"
   MaxBlocks = 7
@@ -9,5 +9,5 @@ CONSTANTS
   MaxComps = 8
 INIT Init
 NEXT Next
-INVARIANTS InvConsistent InvValidRefs InvValidity Emit
+INVARIANTS InvConsistent InvValidity Emit
 CHECK_DEADLOCK FALSE
